@@ -40,6 +40,13 @@ def domain(sigma_zero=False, inflated=False):
             return IV(1e-4, 101 if inflated else 10, 1, True)
         if name in ("m_mu0", "m_sigma0"):
             return IV(0, 100, 1)
+        # teams of every size up to 16 members (pyvc/teams.py): the aggregates and the size
+        if name.startswith("theta_"):
+            return IV(-320, 320, 1)
+        if name.startswith("s_"):
+            return IV(1e-8, 16 * (101.0 if inflated else 10.0) ** 2, 2, True)
+        if name.startswith("L_"):
+            return IV(1, 16, 0, True)
         return None
     return dom
 
@@ -124,6 +131,37 @@ def unit_compute(model, sizes, gamma_mode):
                 bad = [o for o in run.ctx.all_obls if o.kind == "safety" and not Evaluator(lambda nm: IV(0, 10, 1) if nm.startswith("sg_") else d0(nm)).holds(o.goal)]
             recs.append(driver.rec(f"C08/{model}/_compute/canary-outside-the-domain@{shape}", "refuted" if bad else "discharged", "interval", 0, kind="canary",
                                    fn=fn, shape=shape, replay=dict(rp, clause="canary")))
+    return recs
+
+
+def unit_compute_anysize(model, n, gamma_mode):
+    """the same safety obligations on the real _compute for teams of every size from 1 to 16 members
+    (symbolic member counts; the aggregates range over what 16 members of the domain can add up to)"""
+    from .computil import GenericRun
+    from ..symrt import UncutLoop
+    recs = []
+    fn = f"{model}._compute"
+    pats = compositions(n) if n <= 3 else [tuple([1] * n), (n,), tuple([2] * (n // 2) + [1] * (n % 2))]
+    for blocks in pats:
+        ranks = ranks_of(blocks)
+        shape = f"n={n},ties={blocks},gamma={gamma_mode},any-team-size (1..16 members)"
+        rp = _rp(model, (16,) * min(n, 2) + (1,) * max(0, n - 2), ranks)
+        try:
+            run = GenericRun(model, n, ranks, gamma_mode, safety=True)
+        except UncutLoop as e:
+            recs.append(driver.rec(f"C08/{model}/_compute/any-team-size/unbounded-proof@{shape}", "note", "explorer", 0, kind="note", fn=fn, shape=shape, note=f"not attempted: {e}"))
+            continue
+        if not run.ok():
+            if isinstance(run.out[1], UncutLoop):
+                recs.append(driver.rec(f"C08/{model}/_compute/any-team-size/unbounded-proof@{shape}", "note", "explorer", 0, kind="note", fn=fn, shape=shape, note=f"not attempted: {run.out[1]}"))
+            else:
+                recs.append(driver.rec(f"C08/{model}/_compute/any-team-size/no-raise@{shape}", "refuted", "explorer", 0, fn=fn, shape=shape, note=repr(run.out[1])[:200], replay=rp))
+            continue
+        recs.append(driver.rec(f"C08/{model}/_compute/any-team-size/no-raise@{shape}", "discharged", "explorer", 0, fn=fn, shape=shape))
+        r, ev = judge(run.ctx.all_obls, domain(inflated=True), f"C08/{model}/_compute/any-team-size", shape, fn, rp)
+        recs += r
+        post = run.post()
+        recs.append(finite_rec(ev, f"C08/{model}/_compute/any-team-size/results-bounded-by-1e300@{shape}", [term(x) for t in post for p in t for x in p], shape, fn, rp))
     return recs
 
 
@@ -233,6 +271,10 @@ def units(tier):
         for s in ([(1, 1), (2, 1), (16, 16), (1, 1, 1), (2, 1, 1, 3)] if tier == "quick" else [(1, 1), (2, 1), (16, 16), (1, 1, 1), (2, 1, 1, 3), (1,) * 6, (16,) * 8]):
             us.append(("unit_predict", (m, s)))
     us.sort(key=lambda u: -sum(u[1][1]) * len(u[1][1]) if u[0] != "unit_gauss" else -10 ** 6)
+    for m in extract.MODELS:
+        for n in range(2, (4 if tier == "quick" else 8) + 1):
+            us.append(("unit_compute_anysize", (m, n, "default")))
+        us.append(("unit_compute_anysize", (m, 3, "custom")))
     return us
 
 
@@ -253,5 +295,5 @@ def main(tier, seed):
         ],
         explanation=("While the real _compute, rate (tau inflation, sort, update, clamp) and predict_win/draw/rank run in R-mode on symbolic games, every division, square root, exp and inverse-CDF call emits a safety obligation named after its source line; each is discharged by sound interval evaluation of the operand over the property's domain, with a scale degree in beta so that the bound holds for every beta in six orders of magnitude (e.g. |theta/c| <= 227 for exp, s_i >= (1e-4 beta)^2 for the share, 1+exp >= 1, max(.,kappa) > 0 under the root); "
                      "no path of a well-formed call ends in an exception and every result is bounded by 1e300."),
-        shapes=sorted({str(u[1][1]) for u in units(tier) if u[0] != "unit_gauss"}),
+        shapes=sorted({(str(u[1][1]) if u[0] != "unit_compute_anysize" else f"_compute: n={u[1][1]}, every team size 1..16") for u in units(tier) if u[0] != "unit_gauss"}),
     )
